@@ -16,6 +16,14 @@ def K(prefix, name, clause, kind='P', tier='quick', fns=(), bound=None):
 PROPS = {}
 WINDOW_DRV = {'file': 'native/core_window.rs', 'attach': 'src/crypto/core.rs', 'test': 'replay_window_matches_the_property'}
 INIT_DRV = {'file': 'native/init_decoder.rs', 'attach': 'src/crypto/init.rs', 'test': 'handshake_decoder_is_total_and_accepts_only_signed_messages'}
+STAGES_DRV = {'file': 'native/init_stages.rs', 'attach': 'src/crypto/init.rs', 'test': 'handshake_stage_machine_survives_replays_and_never_completes_twice_or_with_itself'}
+STAGES_FNS = ['InitState::(handle_init|every_second|send_ping|repeat_last_message|stage|take_core|fresh_block)', 'InitMsg::(stage|salted_node_id_hash)', 'MsgBuffer::.*', 'canary_.*']
+STAGES_TRUSTED = [
+    'unit initstage, environment (contracts ASSUMED): ring ECDH key generation / agreement / key derivation (create_ecdh_keypair, derive_master_key: their unwrap()s concern locally generated keys and the SIGNED public key of a trusted peer), CryptoCore::new, InitState::decrypt (AEAD open + Payload::read_from: result is the uninterpreted function opened(core, sealed)), InitState::select_algorithm (result is the uninterpreted function selection(own, peer); its body is under contract as a Kani block under C06), InitState::check_salted_node_id_hash (its contract is PROVED in unit codec), InitMsg::read_from (PROVED total and signature-gated in unit codec; here: a function of the datagram and the trusted keys)',
+    'unit initstage: InitState::send_message (encode + sign + store the outgoing message) is an environment function: its caller-dependent panic sites are its preconditions (assert!(out.is_empty()), key present for ping/pong, stage in 1..=3) and are PROVED at every call site; `expect("Buffer too small")` (the own node information does not fit) is ASSUMED not to fire and the message to be at most 65535-1024 bytes; buffers handed to a handshake object have space_before <= 1024 (cloud.rs: SPACE_BEFORE = 100 at every MsgBuffer::new)',
+    'unit initstage R5 pinned statements: comparisons of two [u8; 20] salted hashes (==, <, >, <=, >= in either order) through arr20_eq / arr20_gt (lexicographic order as uninterpreted function lex_gt), `CryptoCore::new(` -> core_new(; R1: the statement `self.selected_algorithm = ...` (field used by tests only) is dropped; R4: InitState without key_pair and selected_algorithm; R8: the two `.map_err(|_| Error::CryptoInitFatal(..))` closures get `ensures o is CryptoInitFatal`',
+    'the representation invariant of handshake objects is carried as far as the per-peer object: a fresh object satisfies it (block of InitState::new), InitState::{handle_init, every_second, take_core} preserve it except on a FATAL error in the pong arm, PeerCrypto::{handle_message, handle_init_message, every_second} (unit buffer, through the shared clause files units/iface/handle_init.*, init_every_second.contract, init_take_core.ensures) preserve it for their handshake object with the same exception, and a finished handshake object (the only kind inside an established peer) is never spoiled. NOT proved at node level: that GenericCloud discards a pending object after a fatal error (handle_socket_event: `self.pending_inits.remove(&src)`; sources of the real UdpSocket / proxy are always V6 so the removal key equals the mapped lookup key) - reading',
+]
 BASE62_DRV = {'file': 'native/base62_long.rs', 'attach': 'src/util.rs', 'test': 'text_codec_round_trips_long_strings'}
 TABLE_MODEL = {'file': 'native/table_model.rs', 'attach': 'src/table.rs', 'test': 'table_matches_reference_model'}
 
@@ -152,8 +160,11 @@ PROPS['C06'] = {
     'level': 'proof',
     # "the lists reach the negotiation unaltered": the cipher list of a decoded ping / pong is the decoding of an algorithms part of the
     # signed message (every entry with code 1..=3 in order, with its speed; plain iff an entry has code 0)
-    'verus': [{'unit': 'codec', 'rlimit': 100, 'fns': ['InitMsg::read_from', 'lemma_cur_adv', 'canary_.*']}],
-    'native_search': {r'codec::InitMsg.*': INIT_DRV},
+    'verus': [{'unit': 'codec', 'rlimit': 100, 'fns': ['InitMsg::read_from', 'lemma_cur_adv', 'canary_.*']},
+              # what handle_init does with the selection: the core is built from exactly the selected algorithm (none: plain), a first
+              # ping / expected pong without common cipher is a fatal error without reply ("fails cleanly")
+              {'unit': 'initstage', 'fns': ['InitState::handle_init', 'canary_.*']}],
+    'native_search': {r'codec::InitMsg.*': INIT_DRV, r'initstage::.*': STAGES_DRV},
     'kani': {
         'files': {'src/crypto/init.rs': ['kani/initblocks.rs.in']},
         'harnesses': [
@@ -163,7 +174,7 @@ PROPS['C06'] = {
         'jobs': 16,
         'harness_timeout': '120m', 'timeout_s': 9000,
     },
-    'trusted': [
+    'trusted': STAGES_TRUSTED + [
         'the advertised lists reach select_algorithm unaltered (Ed25519 signature over the handshake message; C01 is not decided)',
         'a peer may send duplicate or more than three entries on the wire; lists with distinct ciphers only are covered',
         'NaN speeds are excluded (the property excludes them)',
@@ -260,21 +271,26 @@ PROPS['C12'] = {
     'verus': [{'unit': 'table', 'fns': TABLE_FNS},
               # node level: a peer removed by close message / replacement (remove_peer) or by timeout (housekeep) keeps no route; node
               # information sets exactly the announced claims (update_peer_info)
-              {'unit': 'peers'}],
+              {'unit': 'peers'},
+              # the third way a peer leaves the map (crypto_housekeep on a failing tick, WITHOUT clearing claims) is unreachable for an
+              # established peer object: its tick never fails
+              {'unit': 'buffer', 'fns': ['PeerCrypto::every_second', 'PeerCrypto::(get_core|get_init|get_rotation|encrypt_message|handle_init_message|handle_message)']}],
     'native_search': {'table::ClaimTable::set_claims': [{'file': 'native/table_setclaims.rs', 'attach': 'src/table.rs', 'test': 'claims_equal_last_announcement'}, TABLE_MODEL],
                       r'table::.*': TABLE_MODEL, r'peers::GenericCloud.*': NODE_PEERS_DRV},
-    'trusted': TABLE_TRUSTED + PEERS_TRUSTED,
+    'trusted': TABLE_TRUSTED + PEERS_TRUSTED + ['unit buffer: InitState (handshake object), RotationState and CryptoCore are opaque environment types; the contracts assumed for InitState::{handle_init, every_second, take_core} are the shared clause files under units/iface, PROVED in unit initstage'],
     'not_decided': [
-        'node level, remaining: GenericCloud::crypto_housekeep removes a peer whose per-peer crypto tick fails WITHOUT remove_claims (reading: PeerCrypto::every_second does not fail for an established peer, so this is not reached in practice); the repair path of handle_interface_data (next hop not a peer) is unreachable behind `send_msg(..)?` (reading); add_new_peer',
+        'node level, remaining: GenericCloud::crypto_housekeep removes a peer whose per-peer crypto tick fails WITHOUT remove_claims - PROVED unreachable for an established peer object (unit buffer, PeerCrypto::every_second: handshake object gone or finished and rotation only over a core ==> the tick returns Ok), but that every object in the peer map is in that state is by reading (it enters the map on Initialized / InitializedWithReply, which establish it: proved); the repair path of handle_interface_data (next hop not a peer) is unreachable behind `send_msg(..)?` (reading); add_new_peer',
         'duplicates and order of the claim list are not part of the contract (set semantics)',
     ],
 }
 
 PROPS['C08'] = {
     'level': 'proof',
-    'level_text': 'Proof for the per-peer receive path: MsgBuffer, CryptoCore::decrypt/encrypt (buffer geometry) and PeerCrypto::{handle_message, decrypt_message, encrypt_message, send_message} verbatim in Verus: for EVERY well-formed buffer (any length incl. 0, any content) and every state of the peer object every callee precondition (index bounds, arithmetic, assert!) is established, i.e. no panic. NodeInfo::decode and RotationMessage::read_from (and the Range/Address decoders under them) are total on EVERY byte sequence (unit codec: no panic, no overflow, every loop terminates, allocation bounded by the 16-bit part length). InitMsg::read_from, the decoder every datagram with the handshake marker reaches before anything is known about its sender, is total as well (same unit; Cursor<&[u8]> through the same reader contracts). The rest of the handshake path (InitState::handle_init after the decoder returned) is NOT decided.',
+    'level_text': 'Proof for the per-peer receive path: MsgBuffer, CryptoCore::decrypt/encrypt (buffer geometry) and PeerCrypto::{handle_message, decrypt_message, encrypt_message, send_message} verbatim in Verus: for EVERY well-formed buffer (any length incl. 0, any content) and every state of the peer object every callee precondition (index bounds, arithmetic, assert!) is established, i.e. no panic. NodeInfo::decode and RotationMessage::read_from (and the Range/Address decoders under them) are total on EVERY byte sequence (unit codec: no panic, no overflow, every loop terminates, allocation bounded by the 16-bit part length). InitMsg::read_from, the decoder every datagram with the handshake marker reaches before anything is known about its sender, is total as well (same unit; Cursor<&[u8]> through the same reader contracts). The handshake path BEHIND the decoder - reached by replayed or reordered genuine handshake datagrams in every stage - is proved as well (unit initstage): InitState::{handle_init (whole function), every_second, send_ping, repeat_last_message} verbatim: for every handshake object that satisfies its representation invariant (a handshake waiting for the pong still holds its ephemeral key; retry counter within its limit; stored last message fits a buffer) and every decoded message, no unwrap / assert / slice copy / arithmetic can fault, and the invariant is preserved - except after a FATAL error in the pong arm, which tells the node to discard the object. ECDH, AEAD, signing and the size of the own node information are environment assumptions.',
     'verus': [{'unit': 'buffer'}, {'unit': 'cloud', 'fns': ['GenericCloud::handle_net_message', 'GenericCloud::handle_message']},
-              {'unit': 'codec', 'rlimit': 100, 'safety_only': True, 'fns': ['Address::read_from.*', 'Range::read_from', 'NodeInfo::(read_addr_list.*|decode.*)', 'RotationMessage::read_from', 'InitMsg::read_from', 'MsgBuffer::.*', 'lemma_flag_fields', 'lemma_prepend2', 'lemma_cur_adv', 'canary_.*']}],
+              {'unit': 'codec', 'rlimit': 100, 'safety_only': True, 'fns': ['Address::read_from.*', 'Range::read_from', 'NodeInfo::(read_addr_list.*|decode.*)', 'RotationMessage::read_from', 'InitMsg::read_from', 'MsgBuffer::.*', 'lemma_flag_fields', 'lemma_prepend2', 'lemma_cur_adv', 'canary_.*']},
+              # the handshake path BEHIND the decoder (reached by replayed genuine handshake datagrams in every stage): stage machine
+              {'unit': 'initstage', 'safety_only': True, 'fns': STAGES_FNS}],
     'kani': {
         'files': {'src/crypto/core.rs': ['kani/coreblocks.rs.in', 'kani/core.rs']},
         'harnesses': [
@@ -286,13 +302,13 @@ PROPS['C08'] = {
                       r'kani::core::decrypt_with_key_contract': WINDOW_DRV,
                       'kani::coreblocks::decrypt_block_contract': {'file': 'native/core_keyid.rs', 'attach': 'src/crypto/core.rs', 'test': 'altered_key_id_is_rejected'}},
     'trusted': [
-        'env (NOT decided): InitState::handle_init is assumed total on every well-formed buffer, to leave the buffer start at space_before, and to leave the buffer empty when the responder side completes; its first step, the decoder InitMsg::read_from, is under contract in unit codec; PeerCrypto::handle_init_message itself is verified verbatim (RotationState::new as environment)',
+        'unit buffer takes InitState::handle_init as environment: total on every well-formed buffer, leaves the buffer start at space_before, leaves the buffer empty when the responder side completes - these clauses are PROVED in unit initstage (for objects satisfying the representation invariant and space_before <= 1024); PeerCrypto::handle_init_message itself is verified verbatim (RotationState::new as environment)',
         'env: PeerCrypto::handle_rotate_message / RotationMessage parsing is reached only after the AEAD opened the datagram, i.e. not by an outsider',
         'the header/AEAD blocks inside CryptoCore::decrypt/encrypt are replaced by stand-ins here (rule B2); they are under contract as blocks in the Kani harnesses coreblocks::{decrypt,encrypt}_block_contract',
         'ring AEAD verdict is an oracle',
     ],
     'not_decided': [
-        'InitState::handle_init / PeerCrypto::handle_init_message after InitMsg::read_from returned (ECDH, payload decryption, stage machine): assumed total; InitMsg::read_from, NodeInfo::decode and RotationMessage::read_from are proved total in unit codec',
+        'ring operations inside the handshake (ECDH agreement, AEAD, signing), InitState::send_message / InitMsg::write_to (`expect("Buffer too small")` depends on the size of the OWN node information, not on the datagram), and that the node keeps the representation invariant of every stored handshake object (discarding after a fatal error): see trusted',
         'node level dispatch (GenericCloud::handle_net_message frame) - see unit cloud when claimed',
         'observation (outside the quantifier of C08, sender holds a trusted key): a sealed datagram with EMPTY plaintext makes handle_message call take_prefix on an empty buffer, leaving start = end + 1; the next MsgBuffer::len()/message() underflows/panics',
     ],
@@ -301,6 +317,8 @@ PROPS['C08'] = {
 PROPS['C08']['trusted'] = PROPS['C08']['trusted'] + CODEC_TRUSTED
 PROPS['C08']['native_search'][r'codec::(NodeInfo|Range|Address).*'] = CODEC_DRV
 PROPS['C08']['native_search'][r'codec::InitMsg.*'] = dict(INIT_DRV, env={'VERIF_ONLY_PANICS': '1'})
+PROPS['C08']['native_search'][r'initstage::.*'] = STAGES_DRV
+PROPS['C08']['trusted'] = PROPS['C08']['trusted'] + STAGES_TRUSTED
 
 CLB = 'cloud::__verif_cloudblocks::'
 PROPS['C13'] = {
@@ -388,24 +406,26 @@ PROPS['C10'] = {
 
 PROPS['C01'] = {
     'level': 'proof',
-    'level_text': 'PARTIAL - three of the four mechanisms of this property, as contracts on the real code (Verus): (1) InitMsg::read_from returns a message only if it carries an Ed25519 signature that is valid, under a key of the trusted list - the one selected by the salted hash in the first 8 bytes - over ALL bytes up to and including the end marker; for every byte sequence and every trusted list, with termination and memory safety. (2) InitState::handle_init, from its first statement up to the decoder call: when the decoder rejects, the error is returned with the handshake object and the buffer geometry unchanged ("without altering a handshake already in progress"). (3) the statements of GenericCloud::handle_net_message that treat a handshake datagram from an address without pending handshake: the responder object is stored only if it accepted that first message; otherwise no pending entry, no peer, nothing sent ("without creating a peer ... without any reply"); and GenericCloud::add_new_peer creates a peer entry only out of the pending handshake object of that address (consumed), never otherwise. Ed25519 and SHA-256 are uninterpreted functions (unforgeability is the cipher assumption). NOT decided: that two nodes become peers EXACTLY when each trusts the other (needs the whole handshake: C05), mechanism (4) (payload of pong/peng must decrypt before success is reported), the stages after the decoder inside handle_init, lingering / pending handshake objects receiving the datagram (PeerCrypto::handle_message is an environment function at node level), key parsing and the trusted-list construction in Crypto::new.',
+    'level_text': 'PARTIAL - the four mechanisms of this property, as contracts on the real code (Verus): (1) InitMsg::read_from returns a message only if it carries an Ed25519 signature that is valid, under a key of the trusted list - the one selected by the salted hash in the first 8 bytes - over ALL bytes up to and including the end marker; for every byte sequence and every trusted list, with termination and memory safety. (2) InitState::handle_init, from its first statement up to the decoder call: when the decoder rejects, the error is returned with the handshake object and the buffer geometry unchanged ("without altering a handshake already in progress"). (3) the statements of GenericCloud::handle_net_message that treat a handshake datagram from an address without pending handshake: the responder object is stored only if it accepted that first message; otherwise no pending entry, no peer, nothing sent ("without creating a peer ... without any reply"); and GenericCloud::add_new_peer creates a peer entry only out of the pending handshake object of that address (consumed), never otherwise. Ed25519 and SHA-256 are uninterpreted functions (unforgeability is the cipher assumption). (4) InitState::handle_init as a whole (unit initstage): success is reported only from the stage that expects it (pong for the initiator, peng for the responder), at most once per object (a finished object never completes again, whatever is replayed to it), and only after the payload of the peer OPENED under the core of this attempt - for the initiator the core derived from the selected algorithm, the ephemeral key of this attempt and the public key of the peer. NOT decided: that two nodes become peers EXACTLY when each trusts the other (needs the whole handshake: C05), lingering / pending handshake objects receiving the datagram (PeerCrypto::handle_message is an environment function at node level), key parsing and the trusted-list construction in Crypto::new.',
     'verus': [{'unit': 'codec', 'rlimit': 100, 'fns': ['InitMsg::read_from', 'InitState::handle_init_until_decoded', 'MsgBuffer::.*', 'lemma_cur_adv', 'canary_.*']},
               {'unit': 'cloud', 'fns': ['GenericCloud::responder_block', 'GenericCloud::handle_net_message']},
               # "accepts its payload only from a party that proved possession": before the handshake produced a core, or plain mode was
               # negotiated, no non-handshake datagram is interpreted by the per-peer object (also while the handshake is pending)
               {'unit': 'buffer', 'fns': ['PeerCrypto::(decrypt_message|handle_message|handle_init_message|get_core|get_init)', 'is_init_message']},
               # a peer entry is created only out of a pending handshake object for that address (GenericCloud::add_new_peer)
-              {'unit': 'peers', 'fns': ['GenericCloud::add_new_peer', 'GenericCloud::update_peer_info', 'canary_.*']}],
-    'native_search': {r'codec::(InitMsg|InitState).*': INIT_DRV},
-    'trusted': CODEC_TRUSTED + CLOUD_TRUSTED + [
+              {'unit': 'peers', 'fns': ['GenericCloud::add_new_peer', 'GenericCloud::update_peer_info', 'canary_.*']},
+              # mechanisms (2) and (4) on the WHOLE of InitState::handle_init: nothing altered when the decoder rejects; success only
+              # from the stage that expects it, once, and only after the peer's payload opened under the core of this attempt
+              {'unit': 'initstage', 'fns': ['InitState::handle_init', 'InitMsg::(stage|salted_node_id_hash)', 'canary_.*']}],
+    'native_search': {r'codec::(InitMsg|InitState).*': INIT_DRV, r'initstage::.*': STAGES_DRV},
+    'trusted': CODEC_TRUSTED + CLOUD_TRUSTED + STAGES_TRUSTED + [
         'ring: Ed25519 verification and SHA-256 as uninterpreted functions ed25519_ok(key, data, signature), key_hash4(key, salt); R5 pinned statements: `signature::UnparsedPublicKey::new(&ED25519, &public_key_data)` + `public_key.verify(signed_data, &signature).is_err()`, `Self::calculate_hash(tk, &public_key_salt) == public_key_hash`',
         'B1 stand-in for InitState: the plain-data fields (node id, salted hash, payload, trusted keys as Vec, stage, close time, last message, retry counter); the key objects (ECDH private key, key pair, crypto core, algorithms) are not part of the stand-in, so the frame condition does not cover them',
         'unit cloud: ghost counter accepted(PeerCrypto) advanced by the environment function PeerCrypto::handle_message exactly when it returns Ok; for a fresh responder "accepted" means InitState::handle_init returned Ok (PeerCrypto::handle_init_message is read, not proved)',
     ],
     'not_decided': [
         'two nodes become peers exactly when each trusts the other key (whole-handshake agreement, see C05)',
-        'mechanism (4): the payload of pong/peng must decrypt under the freshly agreed key before success is reported (InitState::handle_init Pong/Peng arms: ring ECDH objects)',
-        'InitState::handle_init after the decoder call (stage machine, self test, role switch) and PeerCrypto::handle_init_message',
+        'observation (plain mode only, by reading; outside what "unless both ends enabled plain" protects): with no cipher the payload of a peng is not bound to the attempt, so a replayed ping + peng of an earlier session completes a responder handshake; with a cipher the replayed peng does not open under the fresh key (mechanism 4)',
         'datagrams for addresses WITH a pending or lingering handshake object: they go to that object (PeerCrypto::handle_message, environment function in unit cloud); that a rejected one does not alter it rests on (2) plus reading of PeerCrypto::handle_init_message',
         'trust relations among several key pairs (Crypto::new, password-derived keys): configurations, not contracts',
     ],
@@ -414,18 +434,21 @@ PROPS['C01'] = {
 SELF_DRV = {'file': 'native/self_connect.rs', 'attach': 'src/crypto/init.rs', 'test': 'a_node_recognises_itself_under_any_salt'}
 PROPS['C14'] = {
     'level': 'proof',
-    'level_text': 'PARTIAL - only the SAFETY half ("a node never ends up with itself as a peer ... addresses that peers list under the node\'s own identity are adopted as its own and not dialled"), as contracts on the real code (Verus): InitState::new advertises salt || SHA-256(salt || node id)[..16] (block), InitState::check_salted_node_id_hash answers exactly "is this the salted hash of my node id", and the theorem that every handshake object of a node recognises the hash of every other handshake object of the same node, whatever salts they drew - so a node that reaches itself through an address it does not know to be its own refuses the handshake; the equal-hash disjunct of the "Connected to self" test (Kani block); GenericCloud::connect_sock never dials an address the node knows to be its own (nor a peer, nor one with a pending handshake); the statements of connect_to_peers that adopt the addresses listed under the own node id (block). SHA-256 is an uninterpreted function. NOT decided: the whole first sentence of the property (a connected bootstrap graph becomes a full mesh within a bounded number of exchange intervals, NAT traversal) - liveness over multi-node histories; the call sites in InitState::handle_init and connect_to_peers (labelled loops, HashMap iteration) are read, not proved.',
+    'level_text': 'PARTIAL - only the SAFETY half ("a node never ends up with itself as a peer ... addresses that peers list under the node\'s own identity are adopted as its own and not dialled"), as contracts on the real code (Verus): InitState::new advertises salt || SHA-256(salt || node id)[..16] (block), InitState::check_salted_node_id_hash answers exactly "is this the salted hash of my node id", and the theorem that every handshake object of a node recognises the hash of every other handshake object of the same node, whatever salts they drew - so a node that reaches itself through an address it does not know to be its own refuses the handshake; the equal-hash disjunct of the "Connected to self" test (Kani block); GenericCloud::connect_sock never dials an address the node knows to be its own (nor a peer, nor one with a pending handshake); the statements of connect_to_peers that adopt the addresses listed under the own node id (block). SHA-256 is an uninterpreted function. NOT decided: the whole first sentence of the property (a connected bootstrap graph becomes a full mesh within a bounded number of exchange intervals, NAT traversal) - liveness over multi-node histories; InitState::handle_init (whole function, unit initstage): in EVERY stage a message that carries the own salted hash, or one the self-recognition test accepts, never completes the handshake. The call site in connect_to_peers (labelled loops, HashMap iteration) is read, not proved.',
     'verus': [{'unit': 'codec', 'rlimit': 100, 'fns': ['salted_hash_block', 'InitState::check_salted_node_id_hash', 'theorem_node_recognises_itself', 'canary_.*']},
-              {'unit': 'peers', 'fns': ['GenericCloud::connect_sock', 'GenericCloud::adopt_own_addresses_block', 'canary_.*']}],
+              {'unit': 'peers', 'fns': ['GenericCloud::connect_sock', 'GenericCloud::adopt_own_addresses_block', 'canary_.*']},
+              # the call site: in EVERY stage a message whose hash is the own one, or that the self-recognition test accepts, never
+              # completes a handshake (InitState::handle_init, whole function)
+              {'unit': 'initstage', 'fns': ['InitState::handle_init', 'InitMsg::(stage|salted_node_id_hash)', 'canary_.*']}],
     'kani': {
         'files': {'src/crypto/init.rs': ['kani/initblocks.rs.in']},
         'harnesses': [K(IB, 'nonce_halves_are_opposite', 'the "Connected to self" test of handle_init fires whenever the received salted hash equals the own one (first disjunct; the second disjunct is InitState::check_salted_node_id_hash, proved in unit codec)', fns=['crypto::init::InitState::handle_init (block: self test)'])],
     },
-    'native_search': {r'codec::(InitState::check_salted_node_id_hash|salted_hash_block|theorem_node_recognises_itself)': SELF_DRV},
-    'trusted': CODEC_TRUSTED + PEERS_TRUSTED + ['SHA-256 (ring::digest) as an uninterpreted function with 32-byte results; R5 pinned statements: `digest::digest(&digest::SHA256, &x)`, `rng.fill(&mut hash[0..4]).unwrap()`, the slice comparison in check_salted_node_id_hash'],
+    'native_search': {r'codec::(InitState::check_salted_node_id_hash|salted_hash_block|theorem_node_recognises_itself)': SELF_DRV, r'initstage::.*': STAGES_DRV},
+    'trusted': CODEC_TRUSTED + PEERS_TRUSTED + STAGES_TRUSTED + ['SHA-256 (ring::digest) as an uninterpreted function with 32-byte results; R5 pinned statements: `digest::digest(&digest::SHA256, &x)`, `rng.fill(&mut hash[0..4]).unwrap()`, the slice comparison in check_salted_node_id_hash'],
     'not_decided': [
         'liveness: full mesh from any connected bootstrap graph within a bounded number of peer-exchange intervals, including NAT cases',
-        'that InitState::handle_init calls the test before anything else happens to the handshake object, and that connect_to_peers skips the entry after adopting its addresses (`continue \'outer`): reading',
+        'that connect_to_peers skips the entry after adopting its addresses (`continue \'outer`): reading',
         'own-address learning through other paths (reset_own_addresses, port forwarding)',
     ],
 }
